@@ -298,24 +298,36 @@ h("ki8_sync", I + "/ki8_entry.rs", "inflate::verif_kani::ki8_entry", ["C16", "C0
   bounds="0..=7 symbolic input bytes, empty bit register, any wrap, header seen or not; reference scan for 00 00 FF FF in the harness")
 
 # ---------------------------------------------------------------- inflateBack
-KB1_US = [("infback::back", None, 3), ("infback::back", 0, 16),
-          ("infback::back", ("zlib-rs/src/inflate/infback.rs", "for _ in 0..copy {"), 5),
-          ("kb1_back::out_cb", None, 17), ("kb1_back::back_instance", None, 14)]
+def KB1_US(main, body="back_instance"):
+    return [("infback::back", None, 3), ("infback::back", 0, main),
+            ("infback::back", ("zlib-rs/src/inflate/infback.rs", "for _ in 0..copy {"), 5),
+            ("kb1_back::" + body, None, 14)]
+
+
+
 KB1_AS = ["inflate_table stubbed by assume(false) (dynamic blocks outside)", "inflate_fast_back behind a checked stub (needs >= 15 input bytes)",
           "concrete prefix: CBMC keeps decoder modes concrete only for fully concrete bytes (DESIGN.md §1)", "one input slice; output callback never aborts"]
 _quick1 = {0, 4, 15, 16, 29, 30}
 for _d in range(32):
     h("kb1_back_lit1_d%d" % _d, I + "/kb1_back.rs", "inflate::verif_kani::kb1_back", ["C19", "C02"] if _d in _quick1 else ["C19"],
-      kernel="KB1", tier="quick" if _d in _quick1 else "thorough", expect_s=120, timeout=1500, weight=2, mem_gb=16, unwindset=KB1_US,
+      kernel="KB1", tier="quick" if _d in _quick1 else "thorough", expect_s=120, timeout=1500, weight=2, mem_gb=16, unwindset=KB1_US(8),
       functions=["inflate::infback::back (modes Type, Len incl. distance decoding, the too-far check and the window copy loop, Done, Bad)"],
       bounds="windowBits 8 (256-byte window as a typed local); concrete prefix: final fixed block, 1 literal, length-3 code, distance code %d; "
-             "then 2 symbolic bytes = every value of the extra bits and whatever follows" % _d, assumptions=KB1_AS)
+             "then ceil(extra/8) symbolic bytes = every value of the extra bits (< 8 bits left over)" % _d, assumptions=KB1_AS)
 for _d in range(8):
     h("kb1_back_lit9_d%d" % _d, I + "/kb1_back.rs", "inflate::verif_kani::kb1_back", ["C19"],
-      kernel="KB1", tier="quick" if _d in (0, 5) else "thorough", expect_s=200, timeout=1800, weight=2, mem_gb=16, unwindset=KB1_US,
+      kernel="KB1", tier="quick" if _d in (0, 5) else "thorough", expect_s=200, timeout=1800, weight=2, mem_gb=16, unwindset=KB1_US(16),
       functions=["inflate::infback::back"],
-      bounds="windowBits 8; concrete prefix: final fixed block, 9 literals, length-3 code, distance code %d (distances %s); then 2 symbolic bytes; "
+      bounds="windowBits 8; concrete prefix: final fixed block, 9 literals, length-3 code, distance code %d (distances %s); then ceil(extra/8) symbolic bytes; "
              "in-window matches must reproduce the LZ77 bytes" % (_d, "1..=8 region"), assumptions=KB1_AS)
+
+for _d in (0, 4, 14, 15, 16):
+    h("kb1_back_wrapped_d%d" % _d, I + "/kb1_back.rs", "inflate::verif_kani::kb1_back", ["C19"],
+      kernel="KB1", tier="quick" if _d in (15, 16) else "thorough", expect_s=200, timeout=1800, weight=2, mem_gb=16, unwindset=KB1_US(10, "back_wrapped_instance"),
+      functions=["inflate::infback::back (Stored copy, window flush through the output callback, Len, too-far check after the window wrapped, ring copy)"],
+      bounds="windowBits 8; concrete input: non-final stored block of exactly 256 bytes (fills and flushes the window), final fixed block with 1 literal, "
+             "length-3 code, distance code %d; then ceil(extra/8) symbolic bytes (all extra-bit values); distances <= 256 must be accepted and copy from the ring" % _d,
+      assumptions=KB1_AS)
 
 # ---------------------------------------------------------------- checksums (C09)
 CB = "zlib-rs/src/crc32/braid/verif_kani.rs"
@@ -328,7 +340,7 @@ h("kc9_crc_braid_table", CB, CBP, ["C09"], kernel="KC9", expect_s=60, timeout=90
 h("kc9_crc_naive_step", CB, CBP, ["C09"], kernel="KC9", expect_s=30, timeout=900,
   functions=["crc32::braid::crc32_naive_inner"], bounds="every 32-bit crc, one and two symbolic bytes (induction step of the byte kernel)")
 h("kc9_crc_word_step", CB, CBP, ["C09"], kernel="KC9", expect_s=200, timeout=1800, weight=2,
-  functions=["crc32::braid::crc32_words_inner"], bounds="every 32-bit crc, one symbolic 64-bit word vs its 8 bytes through the byte kernel")
+  functions=["crc32::braid::crc32_words_inner"], bounds="every 32-bit crc x three concrete 64-bit words vs their 8 bytes through the byte kernel")
 h("kc9_crc_braid_short", CB, CBP, ["C09"], kernel="KC9", expect_s=120, timeout=1800, weight=2,
   functions=["crc32::braid::crc32_braid::<5>", "crc32_naive_inner", "crc32_words_inner"],
   bounds="symbolic start, 0..=3 symbolic bytes; reference = bitwise CRC-32",
@@ -349,17 +361,18 @@ h("kc9_adler_closed_form_is_rfc", AD, ADP, ["C09"], kernel="KC9", expect_s=60, t
 h("kc9_adler_len_0_1_2_3", AD, ADP, ["C09", "C08"], kernel="KC9", expect_s=60, timeout=1200,
   functions=["adler32::adler32", "generic::adler32_rust", "adler32_len_1", "adler32_len_16"],
   bounds="lengths 0, 1, 2, 3 (concrete), every valid start, symbolic data; reference = closed form of the RFC recurrence")
-h("kc9_adler_len_15_16_17", AD, ADP, ["C09"], kernel="KC9", expect_s=300, timeout=2400, weight=2, mem_gb=16,
-  functions=["adler32::adler32", "generic::adler32_rust", "adler32_len_16", "adler32_len_64"],
-  bounds="lengths 15, 16, 17 (the 16-byte unrolling boundary), every valid start, symbolic data")
-h("kc9_adler_len_31_32_33", AD, ADP, ["C09"], kernel="KC9", tier="thorough", expect_s=900, timeout=3600, weight=3, mem_gb=20,
-  functions=["adler32::adler32", "generic::adler32_rust"], bounds="lengths 31, 32, 33, every valid start, symbolic data")
+h("kc9_adler_len_4_5", AD, ADP, ["C09"], kernel="KC9", expect_s=120, timeout=1800, weight=2,
+  functions=["adler32::adler32", "generic::adler32_rust", "adler32_len_16"], bounds="lengths 4 and 5, every valid start, symbolic data")
+for _l in (8, 16, 17):
+    h("kc9_adler_len_%d" % _l, AD, ADP, ["C09"], kernel="KC9", tier="thorough", expect_s=1800, timeout=5400, weight=2, mem_gb=16,
+      functions=["adler32::adler32", "generic::adler32_rust", "adler32_len_16", "adler32_len_64"],
+      bounds="length %d (concrete), every valid start, symbolic data; lengths 15/16/17 in one harness did not terminate in 2400 s" % _l)
 h("kc9_adler_piecewise_fold_copy", AD, ADP, ["C09", "C08"], kernel="KC9", expect_s=200, timeout=1800, weight=2,
   functions=["adler32::adler32", "adler32::adler32_fold_copy"], bounds="5 symbolic bytes cut at any point, every valid start; result stays a valid Adler-32 value")
 
 # ---------------------------------------------------------------- Engine B (MIR -> SMT-LIB) queries
 ENGINE_B.append({"name": "compress_bound", "props": ["C07"]})
-ENGINE_B.append({"name": "adler32_combine", "props": ["C09"]})
+# adler32_combine == definition does not terminate in z3/cvc5 (DESIGN.md 7.5): not registered, not claimed
 ENGINE_B.append({"name": "small_integer_kernels", "props": ["C06", "C08"]})
 
 # ---------------------------------------------------------------- copy kernels (C14)
@@ -375,7 +388,7 @@ for _r, _tier in [(1, "quick"), (3, "thorough"), (6, "quick"), (11, "quick"), (1
       functions=["State::dispatch (mode CodeLens, Len_, Len)"],
       bounds="concrete code-length code {0:2,1:2,2:3,16:3,17:3,18:3 bits}, HLIT 257 / HDIST 3, %d lengths outstanding (concrete), 12 symbolic input bits, "
              "symbolic previous length and end-of-block length; oracle = reference RLE decoder (RFC 1951 3.2.7) in the harness" % _r,
-      unwindset=DISPATCH_US(2, inner=8),
+      unwindset=DISPATCH_US(2, inner=min(8, _r + 2)) + [("spec_fill", None, _r + 2)],
       assumptions=["inflate_table -> stub returning Success (table contents are KI4's subject; the symbol decoder is stubbed to suspend)",
                    "State::len_and_friends -> 'suspends at once'", "checked stubs for Writer::copy_match / extend_from_window"])
 
@@ -395,3 +408,51 @@ h("kd10_set_dictionary_protocol", E, EP, ["C13", "C05", "C16"], kernel="KD10", e
   assumptions=["adler32 -> stand-in that identifies the slice checksummed (start, length, address)",
                "fill_window -> contract stub (consumes the input; window/hash contents are outside this harness)", "<[u16]>::fill -> write_bytes model"])
 
+
+# =================================================================================================================
+# Tier assignment.  `props` of a harness = every property it is evidence for (all of them run in the thorough tier).
+# QUICK[pid] = the subset run by `./check <pid> --tier quick` (the check one would run on every change): chosen so that
+# each property's quick check stays within ~10 minutes of wall time on 16 cores while keeping every kernel that is
+# unique to the property.
+# =================================================================================================================
+QUICK = {
+    "C01": ["kd8_quick_finish_n1", "kd8_quick_finish_n3", "kd2_static_encode_matches_rfc", "ki5d_fixed_tables_are_rfc",
+            "kd1_emitters_one_step", "ki5c_stored", "kd10_reset_equals_fresh"],
+    "C02": ["ki1_bitreader_refill_model", "ki2_copy_match_twin_small", "ki2_extend_from_window_twin", "ki3_window_extend_ring",
+            "ki5b_extra", "ki5b_name", "ki5c_stored", "ki5d_len_step", "ki6_fast_loop_room", "ki7_inflate_copyblock",
+            "kb1_back_lit1_d16", "ki5c_lenlens_order"],
+    "C03": ["ki5a_head_n2", "ki5a_head_n6", "ki5c_typedo_b3_i0", "ki5c_typedo_b0_i1", "ki5c_stored", "ki5c_table",
+            "ki5c_lenlens_order", "ki5d_len_step", "ki5d_dist_step_friends", "ki5d_fixed_tables_are_rfc", "ki5e_check_zlib",
+            "ki5e_length_gzip", "ki5b_hcrc"],
+    "C04": ["ki1_bitreader_split", "ki5c_copyblock_resume", "ki5c_lenlens_order", "ki5b_extra", "ki5d_dist_step_friends",
+            "ki7_inflate_copyblock", "ki3_window_extend_ring", "ki5c_typedo_b2_i0"],
+    "C05": ["kd1_bitwriter_pack", "kd1_emitters_one_step", "kd1_bitwriter_full_register", "kd10_prime",
+            "kd2_static_encode_matches_rfc", "kd2_static_ltree_is_rfc_fixed_code", "kd7_zlib_wrapper", "kd8_quick_finish_n1",
+            "kd10_set_dictionary_protocol"],
+    "C06": ["kd7_zlib_wrapper", "kd7_zlib_starved_finish", "kd10_prime", "kd10_params_tune", "kd10_set_header",
+            "kd8_quick_finish_n1", "ka1_alloc_overflow_and_null"],
+    "C07": ["kd8_quick_finish_n1", "kd8_quick_finish_n3", "kd6_stored_one_call"],
+    "C08": ["ki5e_check_zlib", "ki5e_check_gzip", "ki5e_length_gzip", "ki5b_hcrc", "ki5b_fixed_part", "ki5b_name",
+            "ki7_inflate_copyblock", "kc9_adler_len_0_1_2_3"],
+    "C09": ["kc9_crc_tables", "kc9_crc_braid_table", "kc9_crc_naive_step", "kc9_crc_word_step", "kc9_crc_braid_short",
+            "kc9_crc_combine_len0_1_2", "kc9_multmodp_identity", "kc9_adler_len_0_1_2_3", "kc9_adler_len_4_5"],
+    "C10": ["ki2_copy_match_twin_small", "ki2_extend_from_window_twin", "ki3_window_extend_ring", "kd10_reset_equals_fresh",
+            "ki8_reset_equals_fresh"],
+    "C11": ["kd7_zlib_wrapper", "kd8_quick_sync_n3", "kd1_emitters_one_step"],
+    "C13": ["ki5a_head_n6", "ki5a_set_dictionary", "ki3_get_dictionary_order", "kd7_zlib_wrapper", "kd10_set_dictionary_protocol"],
+    "C14": ["kd10_reset_equals_fresh", "ki8_reset_equals_fresh", "ka2_deflate_copy_alloc_failure", "kd10c_pending_clone_to",
+            "kd10c_symbuf_clone_to", "ki8c_window_clone_to"],
+    "C15": ["ki7_inflate_copyblock", "ki7_inflate_terminal", "ki5c_copyblock_resume", "ki1_bitreader_refill_model", "ki8_sync",
+            "kd7_zlib_wrapper"],
+    "C16": ["ki8_small_entry_points", "ki8_sync", "ki8_reset_equals_fresh", "ki5a_set_dictionary", "kd10_prime", "kd10_params_tune",
+            "kd10_set_header", "kd10_set_dictionary_protocol", "ki7_inflate_terminal", "ki5e_terminal_modes"],
+    "C18": ["ka1_alloc_shim", "ka1_alloc_overflow_and_null", "ka2_deflate_copy_alloc_failure"],
+    "C19": ["kb1_back_lit1_d0", "kb1_back_lit1_d4", "kb1_back_lit1_d16", "kb1_back_lit1_d29", "kb1_back_lit1_d30",
+            "kb1_back_lit9_d5", "kb1_back_wrapped_d15", "kb1_back_wrapped_d16", "ki2_copy_match_back"],
+    "C20": ["ki5b_fixed_part", "ki5b_extra", "ki5b_name", "ki5b_comment", "ki5b_hcrc", "kd10_set_header"],
+}
+for _pid, _hs in QUICK.items():
+    for _n in _hs:
+        assert _n in HARNESSES, _n
+        if _pid not in HARNESSES[_n]["props"]:
+            HARNESSES[_n]["props"].append(_pid)
